@@ -28,6 +28,8 @@ type CaseB struct {
 	Pipelined bool     `json:"pipelined"` // follow-ups are sent right behind the first message, before any reply is awaited
 	WithOp    bool     `json:"with_op"`   // an authenticated operator is connected and would see emitted events
 	Agent     bool     `json:"agent"`     // a session exists (target of the task follow-up)
+	// fault dimension (fault_test.go): the transport of the service socket fails at the handshake
+	Fault *Fault `json:"fault,omitempty"`
 }
 
 func svcMsg(kind string, agentID string) []byte {
@@ -198,6 +200,12 @@ func genB(t *rapid.T) CaseB {
 	c.Pipelined = rapid.Bool().Draw(t, "pipelined")
 	c.WithOp = rapid.IntRange(0, 9).Draw(t, "withop") < 7
 	c.Agent = rapid.Bool().Draw(t, "agent")
+	if faultShare(t, "fault?") {
+		c.Fault = genFault(t, true)
+		if len(c.Follow) == 0 {
+			c.Follow = append(c.Follow, rapid.SampledFrom([]string{"regagent", "ladd", "lstart", "agentreg", "task", "exc2"}).Draw(t, "fault-fk"))
+		}
+	}
 	return c
 }
 
@@ -247,6 +255,9 @@ func runB(raw json.RawMessage) *core.Violation {
 		}
 	}
 	s0 := fx.Snapshot()
+	if c.Fault != nil {
+		return runBFault(c, fx, rd, op, s0, alive, agentID, &dirty)
+	}
 
 	s, err := fx.Dial("/" + wsx.SvcEndpoint)
 	if err != nil {
@@ -404,15 +415,20 @@ func classifyB(c CaseB) core.Class {
 	if c.WithOp {
 		cl.Labels = append(cl.Labels, "svc-with-operator")
 	}
+	flt := ""
+	if c.Fault != nil {
+		cl.Labels = append(cl.Labels, c.Fault.label("service-handshake"), "svc-fault+reading:"+rd.String())
+		flt = "|fault=" + c.Fault.Op + "/" + c.Fault.How + "/" + c.Fault.At
+	}
 	cl.NonTrivial = rd != mustAccept && len(c.Follow) > 0
-	cl.Fingerprint = fmt.Sprintf("svc|%s|%s|pipe=%v|op=%v|%s", key, rd, c.Pipelined, c.WithOp, followKindsS(c.Follow))
+	cl.Fingerprint = fmt.Sprintf("svc|%s|%s|pipe=%v|op=%v|%s%s", key, rd, c.Pipelined, c.WithOp, followKindsS(c.Follow), flt)
 	return cl
 }
 
 func TestC06b(t *testing.T) {
 	core.Run(t, core.Spec[CaseB]{
 		Property: "C06", Sub: "b",
-		Rule: "service endpoint of the real teamserver (profile Service block): first message from a grammar ({Head{Type:Register},Body{Password}} with the right / wrong password (other, empty, prefix, appended, its digest), per-field mutations, dispatchable messages (RegisterAgent, ListenerAdd, ListenerStart, AgentRegister, AgentTask, ListenerAddExC2) sent first with or without the password inside, an operator login, non-JSON/empty/binary/1 MiB) x 0-4 dispatchable follow-ups, pipelined behind the first message or sent after the reply x an authenticated operator watching. Oracle: unless the first message is Register with the exact password: no Success reply, at most one Register/Success=false reply and no other frame, the server closes the socket, Service.Agents/Listeners, sessions, job queues, listeners, endpoints, retained events and DB rows are unchanged and the operator receives no event; with the right password Success and a following RegisterAgent/ListenerAdd are announced. Non-trivial: refused handshake followed by at least one dispatchable message",
+		Rule: "service endpoint of the real teamserver (profile Service block): first message from a grammar ({Head{Type:Register},Body{Password}} with the right / wrong password (other, empty, prefix, appended, its digest), per-field mutations, dispatchable messages (RegisterAgent, ListenerAdd, ListenerStart, AgentRegister, AgentTask, ListenerAddExC2) sent first with or without the password inside, an operator login, non-JSON/empty/binary/1 MiB) x 0-4 dispatchable follow-ups, pipelined behind the first message or sent after the reply x an authenticated operator watching. Oracle: unless the first message is Register with the exact password: no Success reply, at most one Register/Success=false reply and no other frame, the server closes the socket, Service.Agents/Listeners, sessions, job queues, listeners, endpoints, retained events and DB rows are unchanged and the operator receives no event; with the right password Success and a following RegisterAgent/ListenerAdd are announced. Non-trivial: refused handshake followed by at least one dispatchable message. FAULT (wave 15; about one case in four; labels fault:socket:<operation>:<how>@service-handshake[...], svc-fault+reading:<reading>): the transport of the service socket fails at the handshake, with at least one dispatchable follow-up pipelined behind the first message in the same segment: the teamserver's write of the Register answer fails (connection wrapper: at once / after K bytes; a real peer that writes everything in one segment and resets at once (SO_LINGER 0), the segment handed over after the reset; or half-closes), or its read fails in the middle of the first message / of the first follow-up (wrapper Read returns ECONNRESET / EOF; peer sends part of the announced frame and resets / half-closes). Oracle unchanged (server-side transcript of everything written to the socket): unless the first message is Register with the exact password the socket is closed by the server, was written at most (a prefix of) the one Register/Success=false answer, nothing was dispatched (Service.Agents/Listeners, sessions, job queues, listeners, endpoints, retained events, DB rows unchanged) and the watching operator received nothing but the probe; with the password presented only survival and the operator still being served are demanded (HEAD closes such a connection when its answer cannot be written)",
 		Gen:   genB, Check: checkB, Classify: classifyB,
 		Assumptions: []string{"a right-password Register message followed by trailing bytes in the same websocket message, or spelled with case-variant keys, may be accepted or refused"},
 	})
